@@ -158,7 +158,8 @@ func (n *maxNode) Next() (bool, error) {
 						case float64:
 							res = res.SetFloat64(v)
 						default:
-							return nil
+							// no value (null): it takes no part, the result so far stands
+							return value
 						}
 						if value == nil || res.Cmp(value) > 0 {
 							return res
